@@ -211,6 +211,30 @@ def run_case(case):
         ghosts(cp, 'copy')
         rows_check(g, phi, bad, maxerr, cov, 'constructor')
         plotprofile_check(g, phi, bad, cov)
+        # (1a) coefficients assigned through the property in every shape numpy broadcasting accepts for the face (scalar, full array,
+        # row, column, nested list): the stored array is the broadcast one
+        ks_ = int(rng.integers(0, g.nd))
+        if ks_ not in spec['periodic']:
+            fs_ = getattr(cp.BCs, SIDES[ks_][int(rng.integers(0, 2))])
+            shp_ = np.shape(fs_.c)
+            forms = [('scalar', float(rng.normal()))]
+            if len(shp_) == 2 and shp_[0] >= 1 and shp_[1] >= 1:
+                forms += [('row', rng.normal(0, 1, (1, shp_[1]))), ('column', rng.normal(0, 1, (shp_[0], 1))), ('vector', rng.normal(0, 1, shp_[1])),
+                          ('nested-list', rng.normal(0, 1, (shp_[0], 1)).tolist())]
+            else:
+                forms += [('full', rng.normal(0, 1, shp_)), ('list', rng.normal(0, 1, shp_).tolist())]
+            # ... and whatever their magnitude: trace-level data (3e-9 in SI units) over a stored zero, a value nudged by 2e-6 relative
+            forms += [('zero', 0.0), ('tiny-over-zero', float(rng.choice([-1, 1]) * 10 ** rng.uniform(-12, -8.5))),
+                      ('one', 1.0), ('nudged', 1.0 + float(rng.choice([-1, 1])) * 2e-6)]
+            for nm_f, val_f in forms:
+                expect_f = np.broadcast_to(np.asarray(val_f, dtype=float), shp_)
+                fs_.c = val_f
+                if not np.array_equal(np.asarray(fs_.c, dtype=float), expect_f):
+                    bad.append(('coefficients-not-as-set', 'c assigned as %s of shape %r to a face of shape %r is stored as %r instead of its broadcast %r' % (
+                        nm_f, np.shape(val_f), shp_, to_list(np.asarray(fs_.c).ravel()[:4]), to_list(expect_f.ravel()[:4]))))
+                cov['bc_assign_form:' + nm_f] = cov.get('bc_assign_form:' + nm_f, 0) + 1
+            cp.apply_BCs()
+            ghosts(cp, 'apply_BCs')
         # (1b) a copy gets boundary data of its own: the original still reports values that satisfy ITS (unchanged) conditions
         ke_ = int(rng.integers(0, g.nd))
         if ke_ not in spec['periodic']:
@@ -281,6 +305,19 @@ def run_case(case):
                     rows_check(g, phi, bad, maxerr, cov, 'solvePDE-after-side-edit')
                     interior_consistency(g, phi, spy_e, bad, maxerr, cov, 'solvePDE after editing only side %s (%s)' % (side_e, how))
                     cov['side_edit:' + side_e] = 1
+            # (3c) a VIEW of one coefficient array kept by the caller across solves and edited in place before each of them
+            kv_ = int(rng.integers(0, g.nd))
+            if kv_ not in spec['periodic']:
+                side_v = SIDES[kv_][int(rng.integers(0, 2))]
+                strip = getattr(phi.BCs, side_v).c[..., 0:2]
+                for rnd_ in range(2):
+                    strip[...] = np.asarray(strip) + 0.6 + 0.3 * rnd_
+                    spy_v = SpySolver()
+                    pf.solvePDE(phi, [pf.transientTerm(phi, dt, 1.0), -pf.diffusionTerm(D)], externalsolver=spy_v)
+                    if not np.all(np.isfinite(phi._value[tuple(slice(1, -1) for _ in range(g.nd))])):
+                        break
+                    ghosts(phi, 'solvePDE-after-edit-through-kept-view')
+                    interior_consistency(g, phi, spy_v, bad, maxerr, cov, 'solvePDE #%d after editing %s.c through a view kept by the caller' % (rnd_ + 1, side_v))
             # (4) solveExplicitPDE
             rhs = pf.divergenceTerm(D * pf.gradientTerm(phi))
             new = pf.solveExplicitPDE(phi, 1e-3 * dt, rhs)
@@ -392,7 +429,7 @@ def floors(agg, tier):
     for cls in CLASSES:
         if agg['cov'].get('cases:' + cls, 0) < 6:
             out.append('cases:%s < 6' % cls)
-    for k, need in (('bc_via:fixedValue', 30), ('bc_via:fixedGradient', 30), ('bc_via:newtonCooling', 30), ('op:constructor', 100), ('op:apply_BCs', 100), ('op:original-after-copy-edit', 100), ('op:apply_BCs-after-untracked-edit', 100), ('op:solvePDE', 80), ('op:solveExplicitPDE', 80),
+    for k, need in (('bc_assign_form:column', 20), ('bc_assign_form:nested-list', 20), ('op:solvePDE-after-edit-through-kept-view', 100), ('bc_via:fixedValue', 30), ('bc_via:fixedGradient', 30), ('bc_via:newtonCooling', 30), ('op:constructor', 100), ('op:apply_BCs', 100), ('op:original-after-copy-edit', 100), ('op:apply_BCs-after-untracked-edit', 100), ('op:solvePDE', 80), ('op:solveExplicitPDE', 80),
                     ('robin_faces', 1000), ('wrap_faces', 200), ('rows-robin', 500), ('scale_invariance', 80), ('plotprofile_faces', 500), ('interior_consistency', 150),
                     ('valdtype:int64', 10), ('valdtype:bool', 10), ('geo:int', 10), ('geo:jitter', 8), ('geo:nano', 5), ('geo:thinend', 10), ('geo:offset', 8), ('no_precalc_round1', 80), ('no_precalc_round2', 40), ('no_precalc_round3', 40), ('side_edit:left', 5), ('side_edit:right', 5), ('side_edit:bottom', 5), ('side_edit:top', 5), ('side_edit:back', 3), ('side_edit:front', 3)):
         if agg['cov'].get(k, 0) < need:
